@@ -97,10 +97,7 @@ func Verif_C07_CBEHeaders() {
 	if !withRules && !verifrt.Thorough() {
 		n = 3
 	}
-	if verifrt.Thorough() {
-		n = 5
-	}
-	tail := verifrt.Bytes("t", n)
+	tail := verifrt.Bytes("t", n) // thorough: 4 bytes in both modes (5 exceed the 50-minute budget)
 	doc := append([]byte{0x81, 0x00}, h...)
 	doc = append(doc, tail...)
 	cfg := configuration.New()
